@@ -885,6 +885,170 @@ Section Total.
     apply good_ret; auto.
   Qed.
 
+  (* ---- GPOS3 ---- *)
+  Lemma read_glyph_good : forall fuel ts n, toksL ts -> (length ts <= n)%nat -> (n < fuel)%nat ->
+    good n (read_glyph F endl fuel ts).
+  Proof.
+    intros fuel ts n H Hl Hf. unfold read_glyph.
+    apply (good_bind _ _ _ n); [apply rgl_good'; auto|]. intros gids ts1 O1 L1.
+    destruct gids as [|g [|g' r]]; try gf. apply good_ret; auto.
+  Qed.
+
+  Lemma read_int16_lt : forall ts k, toksL ts -> (length ts <= k)%nat -> goodlt k (read_int16 endl ts).
+  Proof.
+    intros ts k H Hl. unfold read_int16, bind. rewrite read_eq.
+    destruct (ityp_eqb (ttyp (peek_tok endl ts)) TInt) eqn:E; [|apply goodlt_fatal; apply tl_ok0; auto].
+    destruct (atoi _); [|apply goodlt_fatal; apply tl_ok0; auto].
+    destruct (_ || _); [apply goodlt_fatal; apply tl_ok0; auto|].
+    cbn. split; [apply tl_ok; auto|].
+    assert (X : ttyp (peek_tok endl ts) <> TEOF) by (intros X; rewrite X in E; discriminate).
+    apply peek_not_eof_len in X. lia.
+  Qed.
+
+  Lemma required_ident_lt : forall s ts k, toksL ts -> (length ts <= k)%nat -> goodlt k (required_ident endl s ts).
+  Proof.
+    intros s ts k H Hl. unfold required_ident, bind. rewrite read_eq.
+    destruct (is_ident (peek_tok endl ts) s) eqn:E; [|apply goodlt_fatal; apply tl_ok0; auto].
+    cbn. split; [apply tl_ok; auto|].
+    pose proof (peek_not_eof_len ts (is_ident_not_eof _ _ E)). lia.
+  Qed.
+
+  Lemma gpos3_recs_good : forall fuel data ts n, toksL ts -> (length ts <= n)%nat -> (n < fuel)%nat ->
+    good n (gpos3_recs F endl fuel data ts).
+  Proof.
+    induction fuel as [|f IH]; intros data ts n H Hl Hf; [lia|]. cbn [gpos3_recs].
+    apply (good_bind _ _ _ n); [apply read_glyph_good; auto|]. intros g ts1 O1 L1.
+    apply (good_bind_opt TColon _ ts1 n n); auto; intros ts2 O2 L2;
+      (apply (good_bind_lt _ _ _ n); [apply read_int16_lt; auto; lia|]; intros x1 ts3 O3 L3;
+       apply (good_bind _ _ _ (length ts3)); [apply goodlt_good; apply required_lt; auto|]; intros _ ts4 O4 L4;
+       apply (good_bind _ _ _ (length ts4)); [apply goodlt_good; apply read_int16_lt; auto|]; intros y1 ts5 O5 L5;
+       apply (good_bind _ _ _ (length ts5)); [apply goodlt_good; apply required_ident_lt; auto|]; intros _ ts6 O6 L6;
+       apply (good_bind _ _ _ (length ts6)); [apply goodlt_good; apply read_int16_lt; auto|]; intros x2 ts7 O7 L7;
+       apply (good_bind _ _ _ (length ts7)); [apply goodlt_good; apply required_lt; auto|]; intros _ ts8 O8 L8;
+       apply (good_bind _ _ _ (length ts8)); [apply goodlt_good; apply read_int16_lt; auto|]; intros y2 ts9 O9 L9;
+       apply (good_bind_opt TSemi _ ts9 (length ts9) n); auto;
+       [intros ts10 O10 L10; apply (good_bind_opt TEOL _ ts10 (length ts10) n); auto;
+          intros ts11 O11 L11; apply (good_weaken (length ts11)); try lia; apply IH; auto; lia
+       |intros ts10 O10 L10; apply good_ret; auto; lia]).
+  Qed.
+
+  Lemma gpos3_loop_good : forall fuel subs ts n, toksL ts -> (length ts <= n)%nat -> (n < fuel)%nat ->
+    good n (gpos3_loop F endl fuel subs ts).
+  Proof.
+    induction fuel as [|f IH]; intros subs ts n H Hl Hf; [lia|]. cbn [gpos3_loop].
+    apply (good_bind _ _ _ n); [apply gpos3_recs_good; auto|]. intros data ts1 O1 L1. cbv zeta.
+    apply (good_bind_opt TOr _ ts1 n n); auto.
+    - intros ts2 O2 L2. apply (good_bind_opt TEOL _ ts2 (length ts2) n); auto;
+        intros ts3 O3 L3; apply (good_weaken (length ts3)); try lia; apply IH; auto; lia.
+    - intros ts2 O2 L2. apply good_ret; auto.
+  Qed.
+
+  Lemma read_gpos3_good : forall fuel ts n, toksL ts -> (length ts <= n)%nat -> (n < fuel)%nat ->
+    good n (read_gpos3 F endl fuel ts).
+  Proof.
+    intros fuel ts n H Hl Hf. unfold read_gpos3.
+    apply (good_bind _ _ _ n); [apply header_good; auto|]. intros fl ts1 O1 L1.
+    apply (good_bind _ _ _ n); [apply gpos3_loop_good; auto|]. intros res ts2 O2 L2.
+    apply good_ret; auto.
+  Qed.
+
+  (* ---- GPOS4 ---- *)
+  Lemma good_bind_optid : forall {B} s (f : bool -> P B) ts k n,
+    toksL ts -> (length ts <= k)%nat ->
+    (forall ts', toksL ts' -> (S (length ts') <= k)%nat -> good n (f true ts')) ->
+    (forall ts', toksL ts' -> (length ts' <= k)%nat -> good n (f false ts')) ->
+    good n (bind (optional_ident endl s) f ts).
+  Proof.
+    intros B s f ts k n Hok Hl Ht Hf. pose proof (optional_ident_good s ts Hok) as G. unfold bind.
+    destruct (optional_ident endl s ts) as [[b ts1]|l| | |]; try contradiction.
+    destruct G as [O1 L1]. destruct b; [apply Ht|apply Hf]; auto; lia.
+  Qed.
+
+  Lemma read_uint16_lt : forall ts k, toksL ts -> (length ts <= k)%nat -> goodlt k (read_uint16 endl ts).
+  Proof.
+    intros ts k H Hl. unfold read_uint16, bind. rewrite read_eq.
+    destruct (ityp_eqb (ttyp (peek_tok endl ts)) TInt) eqn:E; [|apply goodlt_fatal; apply tl_ok0; auto].
+    destruct (atoi _); [|apply goodlt_fatal; apply tl_ok0; auto].
+    destruct (_ || _); [apply goodlt_fatal; apply tl_ok0; auto|].
+    cbn. split; [apply tl_ok; auto|].
+    assert (X : ttyp (peek_tok endl ts) <> TEOF) by (intros X; rewrite X in E; discriminate).
+    apply peek_not_eof_len in X. lia.
+  Qed.
+
+  Lemma gpos4_marks_good : forall fuel gl ma ts n, toksL ts -> (length ts <= n)%nat -> (n < fuel)%nat ->
+    good n (gpos4_marks F endl fuel gl ma ts).
+  Proof.
+    induction fuel as [|f IH]; intros gl ma ts n H Hl Hf; [lia|]. cbn [gpos4_marks].
+    apply (good_bind_optid _ _ ts n n); auto; [|intros ts1 O1 L1; apply good_ret; auto].
+    intros ts1 O1 L1.
+    apply (good_bind _ _ _ (length ts1)); [apply read_glyph_good; auto; lia|]. intros g ts2 O2 L2.
+    destruct (not_after gl g); [gf|].
+    apply (good_bind_opt TColon _ ts2 (length ts2) n); auto; intros ts3 O3 L3;
+      (apply (good_bind_lt _ _ _ (length ts3)); [apply read_uint16_lt; auto|]; intros cls ts4 O4 L4;
+       apply (good_bind _ _ _ (length ts4)); [apply goodlt_good; apply required_lt; auto|]; intros _ ts5 O5 L5;
+       apply (good_bind _ _ _ (length ts5)); [apply goodlt_good; apply read_int16_lt; auto|]; intros x ts6 O6 L6;
+       apply (good_bind _ _ _ (length ts6)); [apply goodlt_good; apply required_lt; auto|]; intros _ ts7 O7 L7;
+       apply (good_bind _ _ _ (length ts7)); [apply goodlt_good; apply read_int16_lt; auto|]; intros y ts8 O8 L8;
+       apply (good_bind_opt TSemi _ ts8 (length ts8) n); auto; intros ts9 O9 L9;
+       apply (good_bind_opt TEOL _ ts9 (length ts9) n); auto; intros ts10 O10 L10;
+       apply (good_weaken (length ts10)); try lia; apply IH; auto; lia).
+  Qed.
+
+  Lemma gpos4_anchors_good : forall nc i0 ts n, toksL ts -> (length ts <= n)%nat ->
+    good n (gpos4_anchors endl nc i0 ts).
+  Proof.
+    induction nc as [|nc IH]; intros i0 ts n H Hl; cbn [gpos4_anchors]; [apply good_ret; auto|].
+    assert (K : forall ts1, toksL ts1 -> (length ts1 <= n)%nat ->
+      good n ((required endl TAt ;;; x <- read_int16 endl ;; required endl TComma ;;; y <- read_int16 endl ;;
+               r <- gpos4_anchors endl nc false ;; ret ((x, y) :: r)) ts1)).
+    { intros ts1 O1 L1.
+      apply (good_bind _ _ _ n); [apply goodlt_good; apply required_lt; auto|]. intros _ ts2 O2 L2.
+      apply (good_bind _ _ _ n); [apply goodlt_good; apply read_int16_lt; auto|]. intros x ts3 O3 L3.
+      apply (good_bind _ _ _ n); [apply goodlt_good; apply required_lt; auto|]. intros _ ts4 O4 L4.
+      apply (good_bind _ _ _ n); [apply goodlt_good; apply read_int16_lt; auto|]. intros y ts5 O5 L5.
+      apply (good_bind _ _ _ n); [apply IH; auto|]. intros r ts6 O6 L6. apply good_ret; auto. }
+    destruct i0.
+    - unfold bind at 1. unfold ret at 1. apply K; auto.
+    - apply (good_bind_opt TComma _ ts n n); auto; intros ts1 O1 L1; apply K; auto; lia.
+  Qed.
+
+  Lemma gpos4_bases_good : forall fuel nc gl ba ts n, toksL ts -> (length ts <= n)%nat -> (n < fuel)%nat ->
+    good n (gpos4_bases F endl fuel nc gl ba ts).
+  Proof.
+    induction fuel as [|f IH]; intros nc gl ba ts n H Hl Hf; [lia|]. cbn [gpos4_bases].
+    apply (good_bind_optid _ _ ts n n); auto; [|intros ts1 O1 L1; apply good_ret; auto].
+    intros ts1 O1 L1.
+    apply (good_bind _ _ _ (length ts1)); [apply read_glyph_good; auto; lia|]. intros g ts2 O2 L2.
+    destruct (not_after gl g); [gf|].
+    apply (good_bind_opt TColon _ ts2 (length ts2) n); auto; intros ts3 O3 L3;
+      (apply (good_bind _ _ _ (length ts3)); [apply gpos4_anchors_good; auto|]; intros an ts4 O4 L4;
+       apply (good_bind_opt TSemi _ ts4 (length ts4) n); auto; intros ts9 O9 L9;
+       apply (good_bind_opt TEOL _ ts9 (length ts9) n); auto; intros ts10 O10 L10;
+       apply (good_weaken (length ts10)); try lia; apply IH; auto; lia).
+  Qed.
+
+  Lemma gpos4_loop_good : forall fuel subs ts n, toksL ts -> (length ts <= n)%nat -> (n < fuel)%nat ->
+    good n (gpos4_loop F endl fuel subs ts).
+  Proof.
+    induction fuel as [|f IH]; intros subs ts n H Hl Hf; [lia|]. cbn [gpos4_loop].
+    apply (good_bind _ _ _ n); [apply gpos4_marks_good; auto|]. intros mm ts1 O1 L1.
+    destruct (classes_complete _); [|gf].
+    apply (good_bind _ _ _ n); [apply gpos4_bases_good; auto|]. intros bb ts2 O2 L2. cbv zeta.
+    apply (good_bind_opt TOr _ ts2 n n); auto.
+    - intros ts3 O3 L3. apply (good_bind_opt TEOL _ ts3 (length ts3) n); auto;
+        intros ts4 O4 L4; apply (good_weaken (length ts4)); try lia; apply IH; auto; lia.
+    - intros ts3 O3 L3. apply good_ret; auto.
+  Qed.
+
+  Lemma read_gpos4_good : forall fuel ts n, toksL ts -> (length ts <= n)%nat -> (n < fuel)%nat ->
+    good n (read_gpos4 F endl fuel ts).
+  Proof.
+    intros fuel ts n H Hl Hf. unfold read_gpos4.
+    apply (good_bind _ _ _ n); [apply header_good; auto|]. intros fl ts1 O1 L1.
+    apply (good_bind _ _ _ n); [apply gpos4_loop_good; auto|]. intros res ts2 O2 L2.
+    apply good_ret; auto.
+  Qed.
+
   Lemma parse_loop_good : forall fuel acc ts n, toksL ts -> (length ts <= n)%nat -> (n < fuel)%nat ->
     good n (parse_loop F endl fuel acc ts).
   Proof.
@@ -911,6 +1075,8 @@ Section Total.
       + apply (Hk (fun fu => read_seqctx F endl fu 5)); auto. intros; apply read_seqctx_good; auto.
       + apply (Hk (fun fu => read_chainctx F endl fu 6)); auto. intros; apply read_chainctx_good; auto.
       + apply (Hk (read_gpos1 F endl)); auto. intros; apply read_gpos1_good; auto.
+      + apply (Hk (read_gpos3 F endl)); auto. intros; apply read_gpos3_good; auto.
+      + apply (Hk (read_gpos4 F endl)); auto. intros; apply read_gpos4_good; auto.
     - destruct Hs as [O1 L1]; [discriminate|]. apply (good_weaken (length (tl ts))); [lia|]. apply IH; auto. lia.
   Qed.
 
